@@ -89,9 +89,16 @@ def shift_uids(w, off):
     return {"packets": pk, "drivers": dr}
 
 
+FLOAT_RATES = [8000, 9600, 10000, 56000, 12000]
+FLOAT_SIZES = (43, 51, 59, 71, 100, 700, 1500, 1501)
+
+
 def gen_case(rng, tier, prop_id):
-    if rng.random() < 0.15:
+    r = rng.random()
+    if r < 0.15:
         return gen_case2(rng, tier, prop_id)
+    if r < 0.23:
+        return gen_case1(rng, tier, prop_id, floatmode=True)
     return gen_case1(rng, tier, prop_id)
 
 
@@ -126,7 +133,7 @@ def gen_case2(rng, tier, prop_id):
     return {"kind": "drr2", "insts": [a, b]}
 
 
-def gen_case1(rng, tier, prop_id, n_max=None):
+def gen_case1(rng, tier, prop_id, n_max=None, floatmode=False):
     ncl = rng.choice([1, 2, 2, 3, 3, 4])
     cls = rng.sample(range(0, 6), ncl)
     weights = [[c, rng.choice([1, 1, 2, 2, 3, 4])] for c in cls]
@@ -150,7 +157,19 @@ def gen_case1(rng, tier, prop_id, n_max=None):
     w = ec.gen_workload(rng, flows=flows, n_max=n_max or rng.choice([6, 10, 16, 24]), sizes=sizes,
                         burst_p=rng.choice([0.35, 0.6, 0.85]), horizon=rng.choice([8, 16, 40]))
     pre = [rng.random() < 0.3 for _ in w["drivers"]]
-    return {"kind": "drr", "rate": rate, "weights": weights, "f2c": f2c, "workload": w, "pre": pre}
+    case = {"kind": "drr", "rate": rate, "weights": weights, "f2c": f2c, "workload": w, "pre": pre}
+    if floatmode:
+        # a rate for which 8*size/rate is not a binary fraction: no exact model run; the monitors check the float law
+        case["kind"] = "drrf"
+        case["rate"] = rng.choice(FLOAT_RATES)
+        for sp in w["packets"].values():
+            sp["size"] = rng.choice(FLOAT_SIZES)
+    if rng.random() < (0.3 if floatmode else 0.15):
+        # late configuration: the object is built with other values of the public attributes the code reads at every
+        # use, and they are assigned before any traffic (link re-configured while idle)
+        other = [x for x in ([2048, 4096, 8192, 16384, 65536] + FLOAT_RATES) if x != case["rate"]]
+        case["late"] = {"rate": rng.choice(other), "f2c": rng.random() < 0.5}
+    return case
 
 
 def run_impl(case):
@@ -188,11 +207,34 @@ def run_many(cases):
         cls = classes_of(c)
         flows = flows_of(c)
         tbl = f2c_of(c)
-        if is_identity(c) and c.get("default_f2c", True):
-            s = DRR(env, c["rate"], {k: wt for k, wt in c["weights"]})
+        late = c.get("late") or {}
+        rate0 = late.get("rate", c["rate"])
+        if (is_identity(c) and c.get("default_f2c", True)) or late.get("f2c"):
+            s = DRR(env, rate0, {k: wt for k, wt in c["weights"]})
         else:
-            s = DRR(env, c["rate"], {k: wt for k, wt in c["weights"]}, flow2class=lambda f: tbl.get(f, f))
-        s.out = h.tap("out" + tags[i])
+            s = DRR(env, rate0, {k: wt for k, wt in c["weights"]}, flow2class=lambda f: tbl.get(f, f))
+        if late:
+            # public attributes the code reads at every use, assigned after construction and before any traffic
+            s.rate = c["rate"]
+            if late.get("f2c") and not is_identity(c):
+                s.flow2class = lambda f: tbl.get(f, f)
+        tap = h.tap("out" + tags[i])
+        _tap_put = tap.put
+
+        s_ref = []
+
+        def put_and_read(p, _tap_put=_tap_put):
+            # what the scheduler advertises at the very moment it hands the packet on: a next hop that reads the
+            # counters inside its own put() sees exactly this
+            sch = s_ref[0]
+            at = [[[f, sch.queue_count.get(f, 0), sch.queue_byte_size.get(f, 0)] for f in flows], sch.total_packets,
+                  [[k, sch.class_count.get(k, 0)] for k in cls] if hasattr(sch, "class_count") else []]
+            _tap_put(p)
+            if h.cur_outs:
+                h.cur_outs[-1].append(["at-forward"] + at)
+        tap.put = put_and_read
+        s_ref.append(s)
+        s.out = tap
         if tags[i]:
             s.proc._generator.__name__ = "run" + tags[i]
             orig = s.send_packet
@@ -291,14 +333,30 @@ def cfg_term(case):
     return f"{{| drate := {cf.q(case['rate'])}; dweights := {ws}; df2c := dtbl {tb} |}}"
 
 
-def obs_term(sample):
+def at_forward(outs):
+    """the counters sampled by the tap while out.put() ran, or None"""
+    for o in outs:
+        if o and o[0] == "out" and isinstance(o[-1], list) and o[-1] and o[-1][0] == "at-forward":
+            return o[-1][1:]
+    return None
+
+
+def fwd_term(at):
+    if at is None:
+        return "None"
+    fl, tot, cc = at
+    return ("(Some (" + cf.lst([cf.pair(cf.z(f), cf.pair(cf.z(n), cf.z(b))) for f, n, b in fl]) + ", " + cf.z(tot) + ", "
+            + cf.lst([cf.pair(cf.z(k), cf.z(n)) for k, n in cc]) + "))")
+
+
+def obs_term(sample, at=None):
     dfc, fl, hol, cur, lens, tok, recv, total = sample
     return ("(mkdobs " + cf.lst([cf.pair(cf.z(c), cf.q(v)) for c, v in dfc]) + " "
             + cf.lst([cf.pair(cf.z(f), cf.pair(cf.z(n), cf.z(b))) for f, n, b in fl]) + " "
             + cf.lst([cf.pair(cf.z(c), cf.opt(u, cf.nat)) for c, u in hol]) + " "
             + cf.opt(cur, cf.nat) + " "
             + cf.lst([cf.pair(cf.z(c), cf.nat(n)) for c, n in lens]) + " "
-            + f"{cf.nat(tok)} {cf.z(recv)} {cf.z(total)})")
+            + f"{cf.nat(tok)} {cf.z(recv)} {cf.z(total)} {fwd_term(at)})")
 
 
 def which(tgt):
@@ -340,7 +398,9 @@ def actions(case, obs):
         else:
             return None, f"unexpected log entry {e[:2]}"
         o = cf.lst([ec.pkt_coq(specs[str(x[2])], x[2]) for x in outs])
-        acts.append(f"({a}, {o}, {obs_term(sample)})")
+        if outs and at_forward(outs) is None:
+            return None, "a forwarded packet without the tap's at-forward sample (harness)"
+        acts.append(f"({a}, {o}, {obs_term(sample, at_forward(outs))})")
     return acts, None
 
 
@@ -350,6 +410,8 @@ def agree_term(case, obs):
             return "false (* instances interfere *)"
         ts = [agree_term(c, o) for c, o in zip(case["insts"], obs["multi"])]
         return "(" + ") && (".join(ts) + ")"
+    if case["kind"] == "drrf":
+        return None                    # 8*size/rate is not a binary fraction: outside the exact model; monitors only
     if obs["raised"]:
         return "false"
     acts, err = actions(case, obs)
@@ -454,6 +516,7 @@ def mon_c12(case, obs):
     tl = Timeline(case, obs)
     msgs = list(tl.msgs)
     rate = Fraction(case["rate"])
+    floatmode = case["kind"] == "drrf"
     flows = flows_of(case)
     put, fwd = [], []
     tx = None                 # (uid, start instant) of the transmission in progress
@@ -474,10 +537,29 @@ def mon_c12(case, obs):
         for o in outs:
             uid = o[2]
             fwd.append(uid)
+            at = at_forward([o])
+            if at is None:
+                msgs.append(f"drr-harness: packet {uid} forwarded without the tap's at-forward sample")
+            else:
+                # the counters a next hop reads inside its put(): the departing packet is no longer waiting or in transmission
+                for f, nq, nb in at[0]:
+                    w = [u for u in put if u not in fwd and tl.flow(u) == f]
+                    if nq != len(w) or nb != sum(tl.size(u) for u in w):
+                        msgs.append(f"sched-counters-at-forward: while packet {uid} (flow {tl.flow(uid)}, size {tl.size(uid)}) is handed "
+                                    f"on, flow {f} reports size {nq} / bytes {nb}, but packets {w[:6]} "
+                                    f"({sum(tl.size(u) for u in w)} bytes) are waiting or in transmission")
+                held_now = len(put) - len(fwd)
+                if at[1] != held_now:
+                    msgs.append(f"sched-counters-at-forward: while packet {uid} is handed on total_packets reads {at[1]}, "
+                                f"{held_now} packets are waiting or in transmission")
             if tx is None or tx[0] != uid:
                 msgs.append(f"drr-forward-without-transmission: packet {uid} forwarded at {now} but the transmission in progress is {tx}")
             else:
-                want = tx[1] + Fraction(8 * tl.size(uid)) / rate
+                if floatmode:
+                    # the law as the floats compute it: the kernel adds the delay size*8.0/rate to the start instant
+                    want = Fraction(float(tx[1]) + tl.size(uid) * 8.0 / case["rate"])
+                else:
+                    want = tx[1] + Fraction(8 * tl.size(uid)) / rate
                 if now != want:
                     msgs.append(f"drr-tx-time: packet {uid} (size {tl.size(uid)}) started {tx[1]} ended {now}, expected {want} = start + 8*size/rate")
             tx = None
@@ -737,7 +819,7 @@ def extracted_drr(repo):
 
 class DRRPart:
     name = "drr"
-    kinds = ["drr", "drr2"]
+    kinds = ["drr", "drr2", "drrf"]
     serves = ["C15", "C12", "C08"]
     weight = 2
     coq_imports = ["From ONL Require Import Base.Cmp Elem.Packet Elem.StoreQ Elem.DRR."]
@@ -760,7 +842,12 @@ class DRRPart:
             "kind drr2 (15%): TWO DRR instances alive and busy at the same time in one Environment (two ports of a switch) "
             "with the same table, the same class ids with other weights, or another table sharing a class id, interleaved "
             "workloads; each instance's log is replayed against its own copy of the model and an action of one instance "
-            "must not change the public state (deficit, counters, stores) of the other")
+            "must not change the public state (deficit, counters, stores) of the other; late configuration (15%): the "
+            "object is built with another rate / the default flow2class and the public attributes `rate`, `flow2class` "
+            "(like `out`, always) are assigned before any traffic; kind drrf (8%): rates 8000/9600/10000/12000/56000 with "
+            "sizes such that 8*size/rate is not a binary fraction -- no model run (skipped in the correspondence), the "
+            "monitors check the float law end = start + size*8.0/rate bit-exactly; the tap behind the scheduler samples the "
+            "public counters inside its put() (sched-counters-at-forward), compared with the model as well")
     nontrivial_rule = {
         "C15": _gen + "; non-trivial = at least two classes were backlogged at some transmission end and some head packet "
                       "was parked as unaffordable or some class emptied and refilled; distinct by hash",
@@ -867,6 +954,10 @@ class DRRPart:
                 "drr:f2c=" + ("identity" if is_identity(case) else "many-to-one")]
         if any(case.get("pre") or []):
             keys.append("drr:driver-created-before-element")
+        if case.get("late"):
+            keys.append("drr:late-configuration")
+        if case["kind"] == "drrf":
+            keys.append("drr:float-rate")
         if not obs["raised"]:
             s = stats(case, obs)
             if s["parked"]:
